@@ -1079,9 +1079,8 @@ inline constexpr void Conversion<Unit::VolumeRate, Unit::VolumeRate::CubicMicroi
 }
 
 template <typename NumericType>
-inline const std::map<Unit::VolumeRate,
-                      std::function<void(NumericType* const, const std::size_t size)>>
-    MapOfConversionsFromStandard<Unit::VolumeRate, NumericType>{
+inline constexpr auto MapOfConversionsFromStandard<Unit::VolumeRate, NumericType>{
+  MakeConversionTable<Unit::VolumeRate, NumericType>({
       {Unit::VolumeRate::CubicMetrePerSecond,
        Conversions<Unit::VolumeRate, Unit::VolumeRate::CubicMetrePerSecond>::
            FromStandard<NumericType>                         },
@@ -1214,12 +1213,12 @@ inline const std::map<Unit::VolumeRate,
       {Unit::VolumeRate::CubicMicroinchPerHour,
        Conversions<Unit::VolumeRate, Unit::VolumeRate::CubicMicroinchPerHour>::
            FromStandard<NumericType>                         },
+})
 };
 
 template <typename NumericType>
-inline const std::map<Unit::VolumeRate,
-                      std::function<void(NumericType* values, const std::size_t size)>>
-    MapOfConversionsToStandard<Unit::VolumeRate, NumericType>{
+inline constexpr auto MapOfConversionsToStandard<Unit::VolumeRate, NumericType>{
+  MakeConversionTable<Unit::VolumeRate, NumericType>({
       {Unit::VolumeRate::CubicMetrePerSecond,
        Conversions<Unit::VolumeRate, Unit::VolumeRate::CubicMetrePerSecond>::
            ToStandard<NumericType>                            },
@@ -1346,6 +1345,7 @@ inline const std::map<Unit::VolumeRate,
       {Unit::VolumeRate::CubicMicroinchPerHour,
        Conversions<Unit::VolumeRate, Unit::VolumeRate::CubicMicroinchPerHour>::
            ToStandard<NumericType>                            },
+})
 };
 
 }  // namespace Internal
